@@ -96,26 +96,41 @@ func c13Fold(c *Ctx, f *ssa.Function) {
 		c.check(okFirst && complete, "C13.fold.prefilter-complete", f, "IndexFunc predicate accepts the whole fold orbit of substr's first rune", call,
 			"a position whose rune folds to substr's first rune must not be skipped: "+why)
 	}
-	// every `return true` is under EqualFold(window of len(substr), substr)
+	// every value that may be returned (result variables and inlined helpers
+	// included) is false, the EqualFold of the equal-length case, or a true
+	// that arrives under EqualFold(window of len(substr), substr) — or under
+	// len(substr) == 0, where the empty window matches
+	fs := core.Facts(f)
 	for _, ret := range core.Returns(f) {
-		switch v := ret.Results[0].(type) {
-		case *ssa.Const:
-			if b, _ := core.ConstBool(v); !b {
-				continue
-			}
-			okE := false
-			for _, g := range core.GuardsOf(ret) {
-				if call, ok := g.Cond.(*ssa.Call); ok && g.Truth && core.CalleeName(&call.Call) == "strings.EqualFold" {
-					if eqFoldOnWindow(call, substr) {
-						okE = true
+		for _, lf := range fs.Leaves(ret.Results[0], ret) {
+			switch v := lf.V.(type) {
+			case *ssa.Const:
+				if b, _ := core.ConstBool(v); !b {
+					continue
+				}
+				okE := false
+				for _, g := range lf.Facts {
+					if call, ok := g.Cond.(*ssa.Call); ok && g.Truth && core.CalleeName(&call.Call) == "strings.EqualFold" {
+						if eqFoldOnWindow(call, substr) {
+							okE = true
+						}
+					}
+					if zv, isZero, ok := core.ZeroTest(g.Cond, g.Truth); ok && isZero {
+						if lc, isC := zv.(*ssa.Call); isC && core.CalleeName(&lc.Call) == "builtin.len" && lc.Call.Args[0] == ssa.Value(substr) {
+							okE = true
+						}
 					}
 				}
-			}
-			c.check(okE, "C13.fold.confirm", f, "return true only after EqualFold(s[:len(substr)], substr)", ret, "a match is a window of exactly len(substr) bytes that equals substr under simple folding")
-		case *ssa.Call:
-			if core.CalleeName(&v.Call) == "strings.EqualFold" {
-				okArgs := (v.Call.Args[0] == ssa.Value(s) && v.Call.Args[1] == ssa.Value(substr)) || eqFoldOnWindow(v, substr)
-				c.check(okArgs, "C13.fold.confirm", f, "equal-length case decided by EqualFold(s, substr)", ret, "same byte length")
+				c.check(okE, "C13.fold.confirm", f, "return true only after EqualFold(s[:len(substr)], substr)", ret, "a match is a window of exactly len(substr) bytes that equals substr under simple folding")
+			case *ssa.Call:
+				if core.CalleeName(&v.Call) == "strings.EqualFold" {
+					okArgs := (v.Call.Args[0] == ssa.Value(s) && v.Call.Args[1] == ssa.Value(substr)) || eqFoldOnWindow(v, substr)
+					c.check(okArgs, "C13.fold.confirm", f, "equal-length case decided by EqualFold(s, substr)", ret, "same byte length")
+				} else {
+					c.check(false, "C13.fold.confirm", f, "result "+core.Describe(v), ret, "a result that is not decided by strings.EqualFold on a window of len(substr) bytes")
+				}
+			default:
+				c.check(false, "C13.fold.confirm", f, "result "+core.Describe(lf.V), ret, "a result that is not decided by strings.EqualFold on a window of len(substr) bytes")
 			}
 		}
 	}
